@@ -15,7 +15,7 @@ the source spells it (Ord::max vs. `if cur > max { max = cur }`, Option::or vs. 
 Bodies with loops, or with more than `max_paths` paths, are not summarised (run() returns None) - callers fail closed.
 """
 from .facts import norm, const_int
-from .symexpr import Sym, PURE, add, mul, canon_cmp, ARITH_FLAT, COMMUTATIVE
+from .symexpr import Sym, PURE, add, mul, canon_cmp, ARITH_FLAT, COMMUTATIVE, _signed_cmp
 
 
 class Summary:
@@ -46,6 +46,11 @@ class _State:
 
     def fork(self):
         return _State(dict(self.env), dict(self.mem), list(self.conds), list(self.calls), list(self.blocks))
+
+
+# core's pointer conversions that return their argument (the method spelling of an `as` cast between pointer types)
+PTR_IDENTITY = {"std::ptr::from_ref", "std::ptr::from_mut", "std::ptr::const_ptr::cast", "std::ptr::mut_ptr::cast",
+                "std::ptr::const_ptr::cast_mut", "std::ptr::mut_ptr::cast_const", "std::ptr::const_ptr::cast_const", "std::ptr::mut_ptr::cast_mut"}
 
 
 class PathEval:
@@ -230,7 +235,7 @@ class PathEval:
                     a, c = c, a
                 elif op in COMMUTATIVE and repr(c) < repr(a):
                     a, c = c, a
-                r = ("cmp", op, a, c)
+                r = ("cmp", op, a, c, "signed") if _signed_cmp(rv) else ("cmp", op, a, c)
             else:
                 if op in COMMUTATIVE and repr(c) < repr(a):
                     a, c = c, a
@@ -339,7 +344,10 @@ class PathEval:
                 c = b.call_at(bb)
                 args = tuple(self.op(st, a) for a in t["args"])
                 callee = c.callee if c is not None else "?"
-                if callee in self.pure:
+                if callee in PTR_IDENTITY and len(args) == 1:
+                    # a pointer conversion spelled as a call (ptr::from_ref(x).cast::<T>() for x as *const _ as *const T)
+                    val = args[0]
+                elif callee in self.pure:
                     val = ("call", callee, args)
                 else:
                     val = ("site", callee, bb, args)
